@@ -1,2 +1,188 @@
-(* C20 placeholder, filled below *)
-From MrVerif Require Import Base.Prelude Model.GridSample.
+(* C20 - Resampling operators interpolate and integrate as specified.
+   Theorems about the executable models Model/GridSample.v (GridSamplingOp: aten grid_sampler contract + the reshape
+   wrapper) and Model/SliceProj.v (SliceProjectionOp.projection_matrix, _find_width).  The models are tied to /repo on every
+   run by the correspondence families of harness/props/C20.py (vm_compute of the same definitions on seeded cases).
+   Rationals with Qeq (==).  bicubic / reflection and erf profiles: implementation-level oracles only. *)
+From MrVerif Require Import Base.Prelude Model.GridSample Model.SliceProj Proofs.GridSampleProofs Proofs.SliceProjProofs.
+From Coq Require Import QArith Qround Qabs Morphisms.
+Local Open Scope Q_scope.
+
+(* ======================================================================= GridSamplingOp *)
+
+(* interpolation weights of an axis are >= 0 and sum to one (both modes, any coordinate) *)
+Theorem C20_grid_weights : forall m ix,
+  Forall (fun t => 0 <= snd t) (taps1 m ix) /\ wsum (taps1 m ix) == 1.
+Proof. exact taps_weights. Qed.
+Print Assumptions C20_grid_weights.
+
+(* the taps that survive the bounds test are in range and >= 0; if every neighbour is inside they sum to one *)
+Theorem C20_grid_weights_inside : forall m p ac n x,
+  Forall (fun t => (0 <= fst t < n)%Z /\ 0 <= snd t) (axis_taps m p ac n x)
+  /\ (forallb (fun t => inb n (fst t)) (taps1 m (pad_coord p n (unnormalize ac n x))) = true -> wsum (axis_taps m p ac n x) == 1).
+Proof. intros. split; [apply axis_taps_in_range|apply axis_taps_sum_inside]. Qed.
+Print Assumptions C20_grid_weights_inside.
+
+(* product weights: a constant image is reproduced times the product of the per-axis weight sums (2-D and 3-D) *)
+Theorem C20_grid_const : forall c ty tx tz,
+  sample2 (fun _ _ => c) ty tx == c * wsum ty * wsum tx
+  /\ sample3 (fun _ _ _ => c) tz ty tx == c * wsum tz * wsum ty * wsum tx.
+Proof. intros. split; [apply sample2_const|apply sample3_const]. Qed.
+Print Assumptions C20_grid_const.
+
+(* a grid point exactly on a pixel returns that pixel: every mode, padding, convention, size *)
+Theorem C20_grid_on_pixel : forall m p ac H W im gx gy i j, (0 <= i < H)%Z -> (0 <= j < W)%Z ->
+  unnormalize ac H gy == inject_Z i -> unnormalize ac W gx == inject_Z j ->
+  grid_sample2 m p ac H W im gx gy == im i j.
+Proof. exact grid_sample2_on_pixel. Qed.
+Print Assumptions C20_grid_on_pixel.
+
+Theorem C20_grid_on_pixel_3d : forall m p ac D H W im gx gy gz k i j, (0 <= k < D)%Z -> (0 <= i < H)%Z -> (0 <= j < W)%Z ->
+  unnormalize ac D gz == inject_Z k -> unnormalize ac H gy == inject_Z i -> unnormalize ac W gx == inject_Z j ->
+  grid_sample3 m p ac D H W im gx gy gz == im k i j.
+Proof. exact grid_sample3_on_pixel. Qed.
+Print Assumptions C20_grid_on_pixel_3d.
+
+(* the identity grid (pixel centres: -1 + 2j/(n-1) for align_corners, (2j+1)/n - 1 otherwise) returns the input:
+   any size n >= 2 (align_corners) / n >= 1 (not), all modes and paddings *)
+Theorem C20_grid_identity : forall m p (ac : bool) H W im i j,
+  ((if ac then 2 else 1) <= H)%Z -> ((if ac then 2 else 1) <= W)%Z -> (0 <= i < H)%Z -> (0 <= j < W)%Z ->
+  grid_sample2 m p ac H W im (centre_coord ac W j) (centre_coord ac H i) == im i j.
+Proof. exact identity_grid2. Qed.
+Print Assumptions C20_grid_identity.
+
+Theorem C20_grid_identity_3d : forall m p (ac : bool) D H W im k i j,
+  ((if ac then 2 else 1) <= D)%Z -> ((if ac then 2 else 1) <= H)%Z -> ((if ac then 2 else 1) <= W)%Z ->
+  (0 <= k < D)%Z -> (0 <= i < H)%Z -> (0 <= j < W)%Z ->
+  grid_sample3 m p ac D H W im (centre_coord ac W j) (centre_coord ac H i) (centre_coord ac D k) == im k i j.
+Proof. exact identity_grid3. Qed.
+Print Assumptions C20_grid_identity_3d.
+
+(* n = 1 with align_corners: the pixel-centre formula divides by zero, but every grid value addresses the only pixel *)
+Theorem C20_grid_identity_single : forall m p im gx gy, grid_sample2 m p true 1 1 im gx gy == im 0%Z 0%Z.
+Proof. exact identity_grid2_single. Qed.
+Print Assumptions C20_grid_identity_single.
+
+(* sampling is linear in the input (for every grid point, mode, padding) ... *)
+Theorem C20_grid_linear : forall a b im1 im2 ty tx,
+  sample2 (fun i j => a * im1 i j + b * im2 i j) ty tx == a * sample2 im1 ty tx + b * sample2 im2 ty tx.
+Proof. exact sample2_linear. Qed.
+Print Assumptions C20_grid_linear.
+
+Theorem C20_grid_linear_3d : forall a b im1 im2 tz ty tx,
+  sample3 (fun k i j => a * im1 k i j + b * im2 k i j) tz ty tx == a * sample3 im1 tz ty tx + b * sample3 im2 tz ty tx.
+Proof. exact sample3_linear. Qed.
+Print Assumptions C20_grid_linear_3d.
+
+(* ... and the reshape wrapper (as repaired) samples a complex tensor as the pair (real part, imaginary part), each channel of
+   batch element k with the grid of batch element k, for every batch layout *)
+Theorem C20_grid_complex_alike : forall (T G O : Type) (inner : T -> G -> O) xb gb C xre xim g k c, (0 <= c < C)%Z ->
+  wrap_complex T G O inner xb gb C xre xim g k c
+  = (wrap_real T G O inner xb gb xre g k c, wrap_real T G O inner xb gb xim g k c).
+Proof. exact wrap_complex_is_componentwise. Qed.
+Print Assumptions C20_grid_complex_alike.
+
+(* border padding = zeros padding on the clipped coordinate; with border padding the bilinear weights always sum to one *)
+Theorem C20_grid_border : forall m ac n x,
+  axis_taps m PBorder ac n x = filter (fun t => inb n (fst t)) (taps1 m (clip n (unnormalize ac n x)))
+  /\ ((1 <= n)%Z -> wsum (axis_taps Bilinear PBorder ac n x) == 1).
+Proof. intros. split; [reflexivity|apply border_bilinear_sum1]. Qed.
+Print Assumptions C20_grid_border.
+
+(* the backward kernel (scatter-add) is the transpose of the forward gather: <A x, y> = <x, A^T y> for every grid *)
+Theorem C20_grid_adjoint : forall H W (x : Z -> Z -> Q) outs,
+  Forall (fun o => Forall (fun a => (0 <= fst a < H)%Z) (fst (fst o)) /\ Forall (fun a => (0 <= fst a < W)%Z) (snd (fst o))) outs ->
+  GridSample.qsum (map (fun o => sample2 x (fst (fst o)) (snd (fst o)) * snd o) outs)
+  == GridSample.qsum (map (fun i => GridSample.qsum (map (fun j => x i j * adjoint2 outs i j) (zrange W))) (zrange H)).
+Proof. exact adjoint2_is_transpose. Qed.
+Print Assumptions C20_grid_adjoint.
+
+Theorem C20_grid_adjoint_3d : forall D H W (x : Z -> Z -> Z -> Q) outs,
+  Forall (fun o => match o with (tz, ty, tx, _) =>
+     Forall (fun a => (0 <= fst a < D)%Z) tz /\ Forall (fun a => (0 <= fst a < H)%Z) ty /\ Forall (fun a => (0 <= fst a < W)%Z) tx end) outs ->
+  GridSample.qsum (map (fun o => match o with (tz, ty, tx, y) => sample3 x tz ty tx * y end) outs)
+  == GridSample.qsum (map (fun k => GridSample.qsum (map (fun i => GridSample.qsum (map (fun j => x k i j * adjoint3 outs k i j)
+        (zrange W))) (zrange H))) (zrange D)).
+Proof. exact adjoint3_is_transpose. Qed.
+Print Assumptions C20_grid_adjoint_3d.
+
+(* the hypothesis of the adjoint theorems holds for the taps of every grid point *)
+Theorem C20_grid_taps_in_range : forall m p ac n x, Forall (fun a => (0 <= fst a < n)%Z) (axis_taps m p ac n x).
+Proof. exact axis_taps_idx_in_range. Qed.
+Print Assumptions C20_grid_taps_in_range.
+
+(* ======================================================================= SliceProjectionOp *)
+
+(* all matrix weights are >= 0 for a non-negative profile: any rotation matrix, shift, width, volume shape *)
+Theorem C20_slice_nonneg : forall g r c, (forall d, 0 <= prof g d) -> forall e, In e (row g r c) -> 0 <= snd e.
+Proof. exact row_nonneg. Qed.
+Print Assumptions C20_slice_nonneg.
+
+(* coalescing duplicates and dividing by their number returns the weight of the voxel *)
+Theorem C20_slice_duplicates : forall g pr e, In e (coalesced g pr) ->
+  snd e == weight g pr (fst e) /\ inside g (fst e) = true /\ In (fst e) (cands g pr).
+Proof. exact coalesced_spec. Qed.
+Print Assumptions C20_slice_duplicates.
+
+(* every row sums to fraction_in_view * s / (s + 1e-6), between 0 and the fraction in view;
+   a constant volume gives constant * row sum *)
+Theorem C20_slice_rowsum : forall g r c,
+  row_sum g r c == fraction_in_view g (pixel_rot g r c) * (raw_sum g (pixel_rot g r c) / (raw_sum g (pixel_rot g r c) + eps))
+  /\ ((forall d, 0 <= prof g d) -> 0 <= row_sum g r c <= fraction_in_view g (pixel_rot g r c))
+  /\ fraction_in_view g (pixel_rot g r c) <= 1
+  /\ forall v, project g (fun _ => v) r c == v * row_sum g r c.
+Proof.
+  intros. split; [apply row_sum_spec|]. split; [apply row_sum_bounds|]. split; [apply fraction_in_view_le1|].
+  intros; apply project_const.
+Qed.
+Print Assumptions C20_slice_rowsum.
+
+(* whole support inside the volume: the row sums to s/(s+1e-6) <= 1, and to at least 1 - 1e-6 when the raw weights sum to >= 1 *)
+Theorem C20_slice_rowsum_inside : forall g r c, (forall d, 0 <= prof g d) ->
+  all_in_view g (pixel_rot g r c) -> (0 < npos g r c)%Z ->
+  row_sum g r c * (raw_sum g (pixel_rot g r c) + eps) == raw_sum g (pixel_rot g r c)
+  /\ row_sum g r c <= 1
+  /\ (1 <= raw_sum g (pixel_rot g r c) -> 1 - eps <= row_sum g r c).
+Proof. exact row_sum_inside. Qed.
+Print Assumptions C20_slice_rowsum_inside.
+
+(* identity rotation, ANY shift / shape / width / profile: the row of slice pixel (r,c) is profile-weighted slicing along z
+   through voxel column (pix_y r, pix_x c): weight profile(z_line - z) * norm on the column, 0 elsewhere.
+   _partial: axis-permuting rotations other than the identity are covered by the correspondence and the numpy-style
+   reference oracle only (the statement needs the rotated in-plane position on the lattice; not proved in general). *)
+Theorem C20_slice_identity_is_weighted_slicing_partial : forall g r c, rot g = I3 -> Proper (Qeq ==> Qeq) (prof g) ->
+  exists a, a == line_z g /\
+  forall z y x w, In ((z, y, x), w) (row g r c) ->
+    w == (if ((y =? pix_y g r) && (x =? pix_x g c))%Z then prof g (a - inject_Z z) else 0)
+         * (fraction_in_view g (pixel_rot g r c) / (raw_sum g (pixel_rot g r c) + eps)).
+Proof. exact row_identity. Qed.
+Print Assumptions C20_slice_identity_is_weighted_slicing_partial.
+
+(* rectangular profile of half-width h: taps are exactly those with |d| <= h (weight 1 before normalisation, hence all equal),
+   and the candidate window floor(z_line) - w .. floor(z_line) + w + 1 contains all of them as soon as w >= h *)
+Theorem C20_slice_rect_support : forall h d (pz : Q) (w z : Z),
+  rect h d == (if Qle_bool (Qabs d) h then 1 else 0)
+  /\ (h <= inject_Z w -> Qabs (pz - inject_Z z) <= h -> (Qfloor pz - w <= z <= Qfloor pz + w + 1)%Z).
+Proof. intros. split; [apply rect_spec|apply support_in_window]. Qed.
+Print Assumptions C20_slice_rect_support.
+
+(* _find_width (as repaired) of a rectangular profile of half-width h is floor(h) + 1 >= h: checked by evaluation for
+   half-widths 1/2 .. 4 (widths 1 .. 8 voxels) and volume sizes 4 .. 12 (finite domain, hence _partial) *)
+Example C20_find_width_rect_partial :
+  forallb (fun mx => forallb (fun k => (find_width mx (rect (k # 2)) =? Qfloor (k # 2) + 1)%Z)
+                             [1; 2; 3; 4; 5; 6; 7; 8]%Z) [4; 5; 6; 7; 8; 9; 10; 11; 12]%Z = true.
+Proof. vm_compute. reflexivity. Qed.
+
+(* before the repair the test grid had two points and the width was 1 for every profile; now a width-6 rectangle gives 6 taps *)
+Example C20_width6_six_equal_taps :
+  let g := mk 9 5 5 I3 (1 # 2) (rect 3) in
+  width g = 4%Z /\
+  map (fun e => (fst e, Qred (snd e))) (filter (fun e => negb (Qeq_bool (snd e) 0)) (row g 4 4))
+  = map (fun z => ((z, 2, 2)%Z, Qred ((1 # 6) * (6 / (6 + eps))))) [2; 3; 4; 5; 6; 7]%Z.
+Proof. vm_compute. split; reflexivity. Qed.
+
+(* non-vacuity: bilinear sample half-way between pixels, zeros padding beyond the border, identity grid *)
+Example C20_grid_example :
+  Qred (grid_sample2 Bilinear PZeros true 2 3 (im2_of 2 3 [1; 2; 3; 4; 5; 6]) (1 # 2) 0) = (4 # 1)
+  /\ Qred (grid_sample2 Bilinear PZeros false 2 3 (im2_of 2 3 [1; 2; 3; 4; 5; 6]) 1 (-1 # 2)) = (3 # 2)
+  /\ Qred (grid_sample2 Nearest PBorder false 2 3 (im2_of 2 3 [1; 2; 3; 4; 5; 6]) 2 (-2)) = (3 # 1).
+Proof. vm_compute. repeat split; reflexivity. Qed.
